@@ -46,6 +46,10 @@ pub enum Mode {
     Describe { idx: u64 },
     /// count cases only
     Count,
+    /// do not run anything, print index and description of the cases whose description contains the pattern (at most `max`)
+    Find { pat: &'static str, max: usize },
+    /// development aid: run exactly these cases, in order of enumeration, in one process
+    Multi { set: &'static [u64] },
 }
 
 #[derive(Clone, Debug)]
@@ -243,6 +247,8 @@ impl Ctx {
             Mode::Worker { shard, nshards, start } => idx >= start && idx % nshards == shard,
             Mode::Single { idx: i } | Mode::Describe { idx: i } => i == idx,
             Mode::Count => false,
+            Mode::Find { .. } => true,
+            Mode::Multi { set } => set.contains(&idx),
         }
     }
     /// skip `n` case indices without running them (must be used identically in every mode)
@@ -268,6 +274,17 @@ impl Ctx {
                 return;
             }
             Mode::Count => return,
+            Mode::Find { pat, max } => {
+                let d = desc();
+                if d.contains(pat) {
+                    println!("{idx}\t{family}\t{d}");
+                    self.new_violations += 1;
+                    if self.new_violations >= max {
+                        self.stop = true;
+                    }
+                }
+                return;
+            }
             _ => {}
         }
         if !self.slot.is_null() {
@@ -301,10 +318,16 @@ impl Ctx {
                 if let Err(e) = r {
                     m2.push(e);
                 }
-                if m2 != msgs {
+                if m2.is_empty() {
+                    // failed once, then held: a verdict that cannot be trusted
                     eprintln!("MACHINERY: nondeterministic verdict for case {idx} ({family}): first {:?}, then {:?}", msgs, m2);
                     eprintln!("MACHINERY: case description: {}", desc());
                     std::process::exit(3);
+                }
+                if m2 != msgs {
+                    // fails every time, but not with the same details: the failure itself depends on memory contents
+                    // left by earlier executions (itself a symptom); reported with the first observation
+                    self.stats.counters.entry("violations_whose_details_vary_between_repetitions".to_string()).and_modify(|x| *x += 1).or_insert(1);
                 }
             }
             for msg in msgs {
@@ -558,15 +581,17 @@ struct Slots {
 impl Slots {
     fn create(path: &Path, n: usize) -> Slots {
         let f = std::fs::OpenOptions::new().read(true).write(true).create(true).truncate(true).open(path).unwrap();
-        f.set_len((n * 8) as u64).unwrap();
+        // n case-index slots followed by n heartbeat counters
+        f.set_len((2 * n * 8) as u64).unwrap();
         use std::os::fd::AsRawFd;
         let p = unsafe {
-            libc::mmap(std::ptr::null_mut(), n * 8, libc::PROT_READ | libc::PROT_WRITE, libc::MAP_SHARED, f.as_raw_fd(), 0)
+            libc::mmap(std::ptr::null_mut(), 2 * n * 8, libc::PROT_READ | libc::PROT_WRITE, libc::MAP_SHARED, f.as_raw_fd(), 0)
         };
         assert!(p != libc::MAP_FAILED);
         let ptr = p as *mut u64;
         for i in 0..n {
             unsafe { ptr.add(i).write_volatile(u64::MAX) };
+            unsafe { ptr.add(n + i).write_volatile(0) };
         }
         Slots { ptr }
     }
@@ -578,12 +603,26 @@ impl Slots {
     }
 }
 
+static HEARTBEAT: std::sync::atomic::AtomicPtr<u64> = std::sync::atomic::AtomicPtr::new(std::ptr::null_mut());
+
+/// A case that legitimately runs for a long time (an exhaustive schedule enumeration inside one case) reports that
+/// it is alive after each completed unit of work; the parent's watchdog fires only when neither the case index nor
+/// this counter moved for CASE_WATCHDOG. A library call that never returns does not beat.
+pub fn heartbeat() {
+    let p = HEARTBEAT.load(std::sync::atomic::Ordering::Relaxed);
+    if !p.is_null() {
+        unsafe { p.write_volatile(p.read_volatile().wrapping_add(1)) };
+    }
+}
+
 pub fn open_slot(path: &str, i: usize) -> *mut u64 {
     let f = std::fs::OpenOptions::new().read(true).write(true).open(path).expect("slot file");
     use std::os::fd::AsRawFd;
     let len = f.metadata().unwrap().len() as usize;
     let p = unsafe { libc::mmap(std::ptr::null_mut(), len, libc::PROT_READ | libc::PROT_WRITE, libc::MAP_SHARED, f.as_raw_fd(), 0) };
     assert!(p != libc::MAP_FAILED);
+    let n = len / 16;
+    HEARTBEAT.store(unsafe { (p as *mut u64).add(n + i) }, std::sync::atomic::Ordering::Relaxed);
     unsafe { (p as *mut u64).add(i) }
 }
 
@@ -635,6 +674,7 @@ pub fn run_parent(info: &CheckInfo, tier: Tier, extra_cov: Option<Value>) -> i32
         child: std::process::Child,
         attempt: usize,
         last_idx: u64,
+        last_beat: u64,
         last_change: Instant,
         out: PathBuf,
     }
@@ -654,7 +694,7 @@ pub fn run_parent(info: &CheckInfo, tier: Tier, extra_cov: Option<Value>) -> i32
             .stdin(std::process::Stdio::null())
             .spawn()
             .expect("spawn worker");
-        W { child, attempt, last_idx: u64::MAX, last_change: Instant::now(), out }
+        W { child, attempt, last_idx: u64::MAX, last_beat: 0, last_change: Instant::now(), out }
     };
     let mut ws: Vec<Option<W>> = (0..n).map(|i| Some(spawn(i, 0, 0))).collect();
     let mut result_files: Vec<PathBuf> = vec![];
@@ -671,8 +711,10 @@ pub fn run_parent(info: &CheckInfo, tier: Tier, extra_cov: Option<Value>) -> i32
                 Ok(None) => {
                     alive += 1;
                     let cur = slots.get(i);
-                    if cur != w.last_idx {
+                    let beat = slots.get(n + i);
+                    if cur != w.last_idx || beat != w.last_beat {
                         w.last_idx = cur;
+                        w.last_beat = beat;
                         w.last_change = Instant::now();
                     } else if w.last_change.elapsed() > CASE_WATCHDOG && cur != u64::MAX {
                         let _ = w.child.kill();
